@@ -7,7 +7,7 @@ LEVEL = "exploration"
 PROBES = ("forwards", "twin_checks")
 RULE = ("DeepONets over generated architectures (FC trunk with/without Sequential(NormalizationLayer, .), FC and Conv1D branches, "
         "trunk input dimension 1-2, function output dimension 1-2, output dimension 1-3) and a *history* of operations: "
-        "fix_branch_input(kind) with kind in {callable, 2D tensor, 3D tensor, Points, FunctionSet, FunctionSetCollection}, "
+        "fix_branch_input(kind) with kind in {callable, 2D tensor, 3D tensor, Points, FunctionSet, FunctionSetCollection = sum of 2-4 function sets of unequal sizes}, "
         "forward(trunk batch) with shared (N,d) and per-function (F,N,d) layouts, forward(trunk, branch_inputs=...). After every "
         "forward: out[i,j,c] == sum_m B[i,c,m] T[j,c,m] with B computed by applying the branch layers ourselves to our own "
         "discretisation of the MOST RECENTLY fixed function(s) and T from the plain twin; invariance under permuting the trunk "
